@@ -7,7 +7,7 @@ import subprocess, sys, json, time, os, shutil
 
 HERE = os.path.dirname(os.path.abspath(__file__))
 MUTS = json.load(open(os.path.join(HERE, 'mutations.json')))
-S = '/tmp/sens'
+S = os.environ.get('SENS_DIR', '/tmp/sens')
 
 def sh(cmd, **kw):
     return subprocess.run(cmd, shell=True, capture_output=True, text=True, **kw)
